@@ -39,6 +39,10 @@ type Scenario struct {
 	Check func(out vsched.Outcome)
 	// Observe returns a comparable observation used by the determinism self-check.
 	Observe func() any
+	// ShardCount > 1 splits the search below the default schedule: this run
+	// explores only the first-level deviations whose index is ShardIndex modulo
+	// ShardCount (every shard also runs the default schedule itself).
+	ShardIndex, ShardCount int
 }
 
 // Replay runs one schedule.
@@ -173,6 +177,10 @@ func (sc *Scenario) Explore() Result {
 		}
 
 		for k := len(kids) - 1; k >= 0; k-- {
+			if len(it.prefix) == 0 && sc.ShardCount > 1 && k%sc.ShardCount != sc.ShardIndex {
+				continue
+			}
+
 			stack = append(stack, kids[k])
 		}
 	}
